@@ -113,7 +113,8 @@ def observables_card(cell, n_points=1):
 
 
 # ---- inert records for eko objects -------------------------------------------
-def _xgrid(ev, grid, log=True, **kw):
+def _xgrid(ev, xgrid, log=True, **kw):  # parameter names are eko's: callers may pass keywords
+    grid = xgrid
     """eko.interpolation.XGrid: the points are passed through np.unique (sorted, duplicates rejected, fewer than two rejected).
     Concrete grids are sorted here as eko does; symbolic nodes xg0 < xg1 < ... are ascending by assumption."""
     pts = [S.num_norm(g) for g in (grid.data if isinstance(grid, S.Arr) else grid)]
@@ -129,7 +130,8 @@ def _xgrid(ev, grid, log=True, **kw):
     return o
 
 
-def _interpolator(ev, xgrid, degree, mode_N=False, **kw):
+def _interpolator(ev, xgrid, polynomial_degree, mode_N=True, **kw):
+    degree = polynomial_degree
     below_calls = []
 
     def mk_below(j):
@@ -156,7 +158,8 @@ def _atlas(ev, matching_scales=None, origin=None, **kw):
 
 
 def make_nf_default(cell):
-    def nf_default(ev, q2, atlas):
+    def nf_default(ev, mu2, atlas):
+        q2 = mu2
         scales = atlas.attrs["matching_scales"]
         nf = 3
         symbolic = False
